@@ -34,6 +34,7 @@ Local Notation answered := (answered Pat Args BErr).
 Local Notation group := (group Pat Args RErr BErr).
 Local Notation groups := (groups Pat Args RErr BErr).
 Local Notation visits := (visits Pat Args BErr).
+Local Notation batch_visits := (batch_visits Pat Args BErr).
 Local Notation fmb := (format_message_from_bundle Pat Args RErr fmt).
 
 Definition all_wf (seq : list bres) : Prop := Forall has_locale seq.
@@ -361,11 +362,14 @@ Qed.
 Theorem format_values_spec seq keys (errors : list err) : all_wf seq ->
   format_values_from_inner Pat Args RErr BErr fmt seq keys errors =
     Done (map (first_value seq) keys,
-          errors ++ groups has_value value_entry [] (firstn (visits has_value [] seq keys) seq) keys
+          errors ++ groups has_value value_entry [] (firstn (batch_visits has_value seq keys) seq) keys
                  ++ flat_map (value_final seq) keys,
-          visits has_value [] seq keys).
+          batch_visits has_value seq keys).
 Proof.
-  intros Hwf. unfold format_values_from_inner. rewrite repeat_map.
+  intros Hwf. unfold format_values_from_inner, Walk.batch_visits.
+  destruct keys as [|k0 keys0]; [cbn; rewrite app_nil_r; reflexivity|].
+  cbn [is_nil]. set (keys := k0 :: keys0).
+  rewrite repeat_map.
   change (map (fun _ : key => VNone) keys) with (map (cell_after_v []) keys).
   rewrite values_while_ref by exact Hwf.
   rewrite (gwhile_spec value_cell is_present kstep_v has_value value_entry VNone kstep_v_present eq_refl).
@@ -503,11 +507,14 @@ Qed.
 Theorem format_messages_spec seq keys (errors : list err) : all_wf seq ->
   format_messages_from_inner Pat Args RErr BErr fmt seq keys errors =
     Done (map (first_message seq) keys,
-          errors ++ groups has_message message_entry [] (firstn (visits has_message [] seq keys) seq) keys
+          errors ++ groups has_message message_entry [] (firstn (batch_visits has_message seq keys) seq) keys
                  ++ flat_map (message_final seq) keys,
-          visits has_message [] seq keys).
+          batch_visits has_message seq keys).
 Proof.
-  intros Hwf. unfold format_messages_from_inner. rewrite repeat_map.
+  intros Hwf. unfold format_messages_from_inner, Walk.batch_visits.
+  destruct keys as [|k0 keys0]; [cbn; rewrite app_nil_r; reflexivity|].
+  cbn [is_nil]. set (keys := k0 :: keys0).
+  rewrite repeat_map.
   change (map (fun _ : key => @None l10n_message) keys) with (map (cell_after_m []) keys).
   rewrite messages_while_ref by exact Hwf.
   pose proof (gcomplete_present (option l10n_message) present_m kstep_m has_message message_entry
@@ -564,8 +571,8 @@ Theorem format_value_spec seq k (errors : list err) : all_wf seq ->
           visits has_value [] seq [k]).
 Proof.
   intros Hwf. rewrite single_batch1.
-  pose proof (format_values_spec seq [k] errors Hwf) as H. unfold format_values_from_inner in H.
-  cbn [length repeat] in H.
+  pose proof (format_values_spec seq [k] errors Hwf) as H.
+  unfold format_values_from_inner, Walk.batch_visits in H. cbn [is_nil length repeat] in H.
   destruct (values_while_loop Pat Args RErr BErr fmt seq [k] [VNone] errors 0) as [[[cells e'] n']| |];
     cbn [obind] in H |- *; try discriminate.
   destruct (values_collect Args RErr BErr [k] cells e') as [res e'']. inversion H; subst.
@@ -737,6 +744,25 @@ Proof.
     apply in_le_list_max. apply in_map_iff. exists k. split; [reflexivity | exact Hk].
   - apply Nat.max_lub; [apply visits_pos|]. apply list_max_le. apply Forall_forall.
     intros x Hx. apply in_map_iff in Hx as [k [<- Hk]]. apply visits_mono, Hk.
+Qed.
+
+(* for a non-empty key list the "at least 1" is automatic: the count is simply the largest single-key depth *)
+Lemma list_max_zero {X} (l : list X) : list_max (map (fun _ => 0) l) = 0.
+Proof. induction l; cbn; [reflexivity | exact IHl]. Qed.
+
+Theorem visits_list_max seq keys : keys <> [] ->
+  visits hit [] seq keys = list_max (map (fun k => visits hit [] seq [k]) keys).
+Proof.
+  intros Hk. rewrite visits_max. destruct seq as [|r seq]; [symmetry; apply list_max_zero|].
+  destruct keys as [|k0 keys]; [congruence|]. cbn [map list_max fold_right].
+  pose proof (visits_pos r seq [] [k0]). lia.
+Qed.
+
+Theorem batch_visits_list_max seq keys :
+  Walk.batch_visits Pat Args BErr hit seq keys = list_max (map (fun k => visits hit [] seq [k]) keys).
+Proof.
+  unfold Walk.batch_visits. destruct keys as [|k0 keys]; [reflexivity|]. cbn [is_nil].
+  apply visits_list_max. discriminate.
 Qed.
 End Visits.
 
